@@ -129,6 +129,8 @@ type gsRec struct {
 type fetchReq struct {
 	H    uint64
 	Hash string
+	Ctx  context.Context // the kernel cancels it when it no longer wants the header
+	Step int
 }
 
 type failure struct {
@@ -199,7 +201,9 @@ type sim struct {
 	signed         map[string]map[string]bool
 	phLog          []phLogEntry
 	macroRejected  []string
+	posBeforeOp    viewKey // voting position observed before the current op
 	fetchReqs      []fetchReq
+	fetchOpen      []fetchReq // requests the harness has not answered with a header (the kernel still waits for them unless it cancelled)
 	futureStored   map[string]bool // rounds for which votes were stored while the round was still in the future
 	realCertificates bool // replays carry certificates consistent with what validators signed before
 	incStartGS     int
@@ -325,7 +329,7 @@ func (s *sim) settle(rs ...*callResult) {
 
 func (s *sim) start(crashAt int) {
 	s.incStartGS, s.incStartSM = len(s.gsRecv), len(s.smRecv)
-	s.fetchReqs = nil // fetch requests die with the process
+	s.fetchReqs, s.fetchOpen = nil, nil // fetch requests die with the process
 	inc := newIncarnation(s.d)
 	if crashAt > 0 {
 		inc.crashAt = crashAt
@@ -484,7 +488,8 @@ func (s *sim) drainAll() {
 		}
 		select {
 		case fr := <-s.n.fetch.ReqCh:
-			s.fetchReqs = append(s.fetchReqs, fetchReq{H: fr.Height, Hash: fr.BlockHash})
+			s.fetchReqs = append(s.fetchReqs, fetchReq{H: fr.Height, Hash: fr.BlockHash, Ctx: fr.Ctx, Step: s.step})
+			s.fetchOpen = append(s.fetchOpen, fetchReq{H: fr.Height, Hash: fr.BlockHash, Ctx: fr.Ctx, Step: s.step})
 			s.label("fetch-requested")
 			progressed = true
 		default:
@@ -563,6 +568,7 @@ func runSim(t *testing.T, c simCase, own ownership, setup func(s *sim)) (out *si
 			if s.beforeOp != nil {
 				s.beforeOp(s, i)
 			}
+			s.posBeforeOp = viewKey{s.vv.Height, s.vv.Round}
 			s.exec(op)
 			if s.stopped() {
 				return
